@@ -88,7 +88,7 @@ func TestC13Delta(t *testing.T) {
 		hdr, items := gossip.VerifDeltaItemSizes(sid, saddr, d)
 		steps := prefixSteps(hdr, items)
 		if steps[len(steps)-1] != len(full) {
-			c.Fatalf("harness: item sizes sum to %d, full encoding is %d bytes", steps[len(steps)-1], len(full))
+			c.Harnessf("item sizes sum to %d, full encoding is %d bytes", steps[len(steps)-1], len(full))
 		}
 		c.Stepf("delta %d nodes %d items full=%d bytes header=%d", len(d), len(items), len(full), hdr)
 		if len(steps) > 3 {
@@ -169,7 +169,7 @@ func TestC13Digest(t *testing.T) {
 		hdr, items := gossip.VerifDigestItemSizes(sid, saddr, req, d)
 		steps := prefixSteps(hdr, items)
 		if steps[len(steps)-1] != len(full) {
-			c.Fatalf("harness: digest item sizes sum to %d, full encoding is %d", steps[len(steps)-1], len(full))
+			c.Harnessf("digest item sizes sum to %d, full encoding is %d", steps[len(steps)-1], len(full))
 		}
 		if len(steps) > 3 {
 			c.NonTrivial()
